@@ -535,6 +535,11 @@ def _c_round(x: float) -> float:
     return math.copysign(math.floor(abs(x) + 0.5), x)
 
 
+def _sz(v: float, x: float) -> float:
+    """C keeps the sign of the argument on a zero result (ceil(-0.3) is -0.0)"""
+    return math.copysign(0.0, x) if v == 0 else v
+
+
 def _ilogb(x: float) -> float:
     if x == 0 or math.isinf(x) or math.isnan(x):
         raise ValueError("ilogb: FP_ILOGB0 / FP_ILOGBNAN / INT_MAX are outside the domain")
@@ -563,8 +568,9 @@ REF = {
     "scalbn": lambda x, n: math.ldexp(x, int(n)), "scalbln": lambda x, n: math.ldexp(x, int(n)),
     "pow": math.pow, "sqrt": math.sqrt, "cbrt": lambda x: math.copysign(abs(x) ** (1.0 / 3.0), x), "hypot": math.hypot,
     "erf": math.erf, "erfc": math.erfc, "tgamma": math.gamma, "lgamma": math.lgamma,
-    "ceil": lambda x: float(math.ceil(x)), "floor": lambda x: float(math.floor(x)), "fmod": math.fmod, "trunc": lambda x: float(math.trunc(x)),
-    "round": _c_round, "rint": lambda x: float(round(x)), "nearbyint": lambda x: float(round(x)), "remainder": math.remainder,
+    "ceil": lambda x: _sz(float(math.ceil(x)), x), "floor": lambda x: _sz(float(math.floor(x)), x), "fmod": math.fmod,
+    "trunc": lambda x: _sz(float(math.trunc(x)), x),
+    "round": _c_round, "rint": lambda x: _sz(float(round(x)), x), "nearbyint": lambda x: _sz(float(round(x)), x), "remainder": math.remainder,
     "copysign": math.copysign, "nan": lambda s: float("nan"), "nextafter": math.nextafter, "nexttoward": math.nextafter,
     "fdim": lambda x, y: max(x - y, 0.0), "fmax": _fmax, "fmin": _fmin,
     "fabs": math.fabs, "abs": abs, "fma": _fma,
@@ -613,8 +619,10 @@ class Skip(Exception):
     pass
 
 
-def py_eval(e, s: Tuple[float, float, float]):
-    """python numerics, every function read by its documented name"""
+def py_eval(e, s: Tuple[float, float, float], jitter: float = 0.0):
+    """python numerics, every function read by its documented name.  `jitter` perturbs every function
+    result relatively: a sample whose value moves under it is ill-conditioned (a discontinuity or a
+    cancellation amplifies last-digit differences between libm and python) and is not compared."""
     k = e[0]
     if k == "m":
         return {"pt": s[0], "eta": s[1], "phi": s[2], "nI": N_I, "xF": X_F}[e[1]]
@@ -622,12 +630,13 @@ def py_eval(e, s: Tuple[float, float, float]):
         return e[1]
     try:
         if k == "call":
-            args = [py_eval(a, s) for a in e[2]]
+            args = [py_eval(a, s, jitter) for a in e[2]]
             if e[1] not in REF:
                 raise Skip()
-            return float(REF[e[1]](*args))
+            v = float(REF[e[1]](*args))
+            return v * (1.0 + jitter) if jitter and math.isfinite(v) else v
         if k == "bin":
-            l, r = py_eval(e[2], s), py_eval(e[3], s)
+            l, r = py_eval(e[2], s, jitter), py_eval(e[3], s, jitter)
             if isinstance(l, str) or isinstance(r, str):
                 raise Skip()
             v = {"Add": lambda: l + r, "Sub": lambda: l - r, "Mult": lambda: l * r, "Div": lambda: l / r, "Pow": lambda: l ** r}[e[1]]()
@@ -635,7 +644,7 @@ def py_eval(e, s: Tuple[float, float, float]):
                 raise Skip()
             return v
         if k == "un":
-            v = py_eval(e[2], s)
+            v = py_eval(e[2], s, jitter)
             return -v if e[1] == "USub" else +v
     except (ValueError, OverflowError, ZeroDivisionError, KeyError, TypeError):
         raise Skip()
@@ -929,7 +938,7 @@ def judge(ctx, cases: List[Tuple[str, str, Any]], numeric: bool) -> List[Dict[st
         recs.append({"stream": stream, "backend": b, "expr": e, "src": to_src(e), "obs": obs})
         reqs.append({"op": "tr", "expr": j})
         reqs.append({"op": "spec", "expr": j, "leaves": leaves_of(e, sep),
-                     "obs": None if "err" in obs else {"text": obs["text"], "declTy": obs["declTy"], "incs": obs["incs"]}})
+                     "obs": None if "err" in obs else {"text": nospace(obs["text"]), "declTy": obs["declTy"], "incs": obs["incs"]}})
     ctx.check_time()
     ans = ctx.driver(DRIVER, reqs)
     items = []
@@ -941,8 +950,14 @@ def judge(ctx, cases: List[Tuple[str, str, Any]], numeric: bool) -> List[Dict[st
             ref = []
             for s in smp:
                 try:
-                    v = py_eval(r["expr"], s)
-                    ref.append(float(v) if abs(float(v)) < 1e15 or math.isinf(float(v)) else None)
+                    v = float(py_eval(r["expr"], s))
+                    if len(called(r["expr"])) > 1 or len(ops_of(r["expr"])) > 0:
+                        for jit in (1e-11, -1e-11):
+                            w = float(py_eval(r["expr"], s, jit))
+                            if not close(v, w, 1e-10):
+                                ctx.count("g++:ill-conditioned-sample-skipped")
+                                raise Skip()
+                    ref.append(v if abs(v) < 1e15 or math.isinf(v) or math.isnan(v) else None)
                 except (Skip, OverflowError):
                     ref.append(None)
             keep = [k for k, v in enumerate(ref) if v is not None]
@@ -980,16 +995,21 @@ def numeric_failure(r) -> Optional[str]:
     return None
 
 
+def nospace(t: str) -> str:
+    """white space between tokens is not the property's business (none of the operand texts contains any)"""
+    return re.sub(r"\s+", "", t)
+
+
 def canon_model(m: Dict[str, Any]) -> Dict[str, Any]:
     if "ok" in m:
-        return {"text": m["ok"]["text"], "declTy": m["ok"]["ty"], "incs": sorted(m["ok"]["incs"])}
+        return {"text": nospace(m["ok"]["text"]), "declTy": m["ok"]["ty"], "incs": sorted(m["ok"]["incs"])}
     return {"err": m.get("err")}
 
 
 def canon_impl(o: Dict[str, Any]) -> Dict[str, Any]:
     if "err" in o:
         return {"err": o["err"]}
-    return {"text": o["text"], "declTy": o["declTy"], "incs": sorted(o["incs"])}
+    return {"text": nospace(o["text"]), "declTy": o["declTy"], "incs": sorted(o["incs"])}
 
 
 HOW = ("python: a = ast.parse(\"Select(SelectMany(<dataset with add_method_type_info for nI:int, xF:float>, lambda e: <collection>), lambda j: <src>)\", mode='eval').body; "
